@@ -391,7 +391,10 @@ func (stub *stub) Start(ctx context.Context) (retErr error) {
 		}
 	}()
 
-	api.RegisterPluginService(rpcs, stub)
+	// results of Configure requests arriving on this connection are reported to this
+	// Start() only, never to a later session
+	cfgErrC := make(chan error, 1)
+	api.RegisterPluginService(rpcs, &pluginService{stub: stub, cfgErrC: cfgErrC})
 
 	conn, err := rpcm.Open(multiplex.RuntimeServiceConn)
 	if err != nil {
@@ -414,7 +417,7 @@ func (stub *stub) Start(ctx context.Context) (retErr error) {
 	}()
 
 	stub.srvErrC = make(chan error, 1)
-	stub.cfgErrC = make(chan error, 1)
+	stub.cfgErrC = cfgErrC
 
 	go func(l stdnet.Listener, doneC chan struct{}, srvErrC chan error) {
 		srvErrC <- rpcs.Serve(ctx, l)
@@ -622,8 +625,23 @@ func (stub *stub) UpdateContainers(update []*api.ContainerUpdate) ([]*api.Contai
 	return nil, err
 }
 
+// pluginService is the plugin service as served on one connection (session).
+type pluginService struct {
+	*stub
+	cfgErrC chan error
+}
+
+// Configure the plugin, reporting the result to the Start() of this session.
+func (s *pluginService) Configure(ctx context.Context, req *api.ConfigureRequest) (*api.ConfigureResponse, error) {
+	return s.stub.configure(ctx, req, s.cfgErrC)
+}
+
 // Configure the plugin.
-func (stub *stub) Configure(ctx context.Context, req *api.ConfigureRequest) (rpl *api.ConfigureResponse, retErr error) {
+func (stub *stub) Configure(ctx context.Context, req *api.ConfigureRequest) (*api.ConfigureResponse, error) {
+	return stub.configure(ctx, req, stub.cfgErrC)
+}
+
+func (stub *stub) configure(ctx context.Context, req *api.ConfigureRequest, cfgErrC chan error) (rpl *api.ConfigureResponse, retErr error) {
 	var (
 		events api.EventMask
 		err    error
@@ -636,7 +654,7 @@ func (stub *stub) Configure(ctx context.Context, req *api.ConfigureRequest) (rpl
 	stub.requestTimeout = time.Duration(req.RequestTimeout * int64(time.Millisecond))
 
 	defer func() {
-		stub.cfgErrC <- retErr
+		cfgErrC <- retErr
 	}()
 
 	if handler := stub.handlers.Configure; handler == nil {
